@@ -437,6 +437,7 @@ macro_rules! bodies {
 }
 bodies!(w8, u8, i8, u32, i32, 1);
 bodies!(w16, u16, i16, u32, i32, 2);
+bodies!(w8n, u8, i8, u16, i16, 1);
 
 //@ prop=C11 tier=quick kind=hold
 //@ enc=MarketUtils::cap_pnl (via verif_cap_pnl hook), utils::apply_factor, Unsigned::to_signed
@@ -559,5 +560,9 @@ fn c11_pnl_monotone_uncapped_u16() {
 
 #[kani::proof]
 fn probe_c11_sdt_u8() {
-    w8::size_delta_in_tokens();
+    w8n::size_delta_in_tokens();
+}
+#[kani::proof]
+fn probe_c11_unc_u8n() {
+    w8n::pnl_uncapped_exact();
 }
